@@ -74,7 +74,18 @@ Bug 1 - a silent wrong value. The tool exits 0, every written file parses and co
 Bug 2 - a boundary or environment bug that needs an unusual but legal situation: sizes exactly at a power of two or at a buffer size (8, 9, 64, 65, 4096, 65536 items / bytes / parameters / methods / nesting levels); names or paths with spaces, dots, dashes, underscores, leading digits, Unicode, a trailing separator, `..` segments, or equal prefixes; read-only or missing directories, unusual umask or file modes, files that are symlinks / FIFOs / empty / huge / without trailing newline / with CRLF or a BOM; HOME, PWD, GOFLAGS, GOWORK, TMPDIR or MOCKERY_* set to unusual values; the working directory being the file-system root of the module, a sub-directory, or outside the module; two runs at the same time.
 
 Both bugs must read like a refactor, clean-up or small optimisation that a reviewer would wave through, must leave the build and the existing suite green, and must need a specific input, configuration, sequence or interleaving to show. The source files most relevant to this property are: {anchors} (the bug itself may live elsewhere, e.g. in a helper those files call)."""
+GUIDANCE9 = """Eight earlier rounds have produced some three hundred bugs for these properties. This round asks for two special kinds, one bug of each; say in README.md which is which.
+
+Bug 1 - a termination or resource bug. For one specific legal input, configuration or call sequence the tool - or a generated mock at run time - loops forever, deadlocks, recurses without bound, takes exponential time or memory, leaks goroutines or file descriptors, blocks on a pipe, lock or channel, or retries endlessly; for every ordinary input nothing changes and the suite stays green. Your demo must bound its own waiting (e.g. `timeout 60 ...`) and fail when the bound is hit.
+
+Bug 2 - the adversary's choice. Assume the property is guarded by a strong automated harness that generates thousands of random source packages, configurations and call sequences, compares results with a reference model, compiles and runs the generated code, uses the race detector, injects faults, and writes each setting at every configuration level. Think about what such a harness most likely does NOT vary - because it is tedious to generate, hard to model, or looks irrelevant - and put your bug exactly there. Say in README.md what you assumed the harness would not vary, and why a real user could still run into it.
+
+Both bugs must read like a refactor, clean-up or small optimisation that a reviewer would wave through, must leave the build and the existing suite green, and must need a specific input, configuration, sequence or interleaving to show. The source files most relevant to this property are: {anchors} (the bug itself may live elsewhere, e.g. in a helper those files call)."""
 suffix = sys.argv[1]
+if suffix.startswith("9"):
+    a = T.index("## Additional guidance for this round")
+    b = T.index("## Environment facts")
+    T = T[:a] + "## Additional guidance for this round\n\n{guidance5}\n\n" + T[b:]
 if suffix.startswith("8"):
     a = T.index("## Additional guidance for this round")
     b = T.index("## Environment facts")
@@ -100,6 +111,8 @@ for pid in (sys.argv[2:] or sorted(props)):
         if suffix.startswith("6"):   # the families not offered to this property in round 5
             fam = [(k * 7 + 3) % 20, (k * 7 + 8) % 20, (k * 7 + 13) % 20, (k * 7 + 18) % 20]
         extra["guidance5"] = GUIDANCE5.format(assigned="\n".join("  - " + MENU[f] for f in fam), anchors=', '.join(p['anchors']['files']))
+    if suffix.startswith("9"):
+        extra["guidance5"] = GUIDANCE9.format(anchors=', '.join(p['anchors']['files']))
     if suffix.startswith("8"):   # the twelve families offered to this property in rounds 5-7 are named as used up
         k = int(pid[1:])
         fam = sorted(set((k * 7 + o) % 20 for o in (0, 5, 11, 16, 3, 8, 13, 18, 1, 6, 12, 17)))
